@@ -98,7 +98,7 @@ PROPS = {
         'needs_exp': True,
     },
     'C02': {
-        'rules': [rule('G0'), rule('G5'), rule('G6'), rule('G7', drop=LOOKAHEAD), rule('G8'), rule('G1'), rule('G3'), rule('T1'), rule('T2'), rule('G17', keep=['string-literal:']), rule('G18', keep=['escaped-identifier:']), rule('G12', keep=['lookahead-spans-tokens']), rule('S1', keep=['VERSION', 'DIRECTIVE'])],
+        'rules': [rule('G0'), rule('G5'), rule('G6'), rule('G7', drop=LOOKAHEAD), rule('G8'), rule('G1'), rule('G3'), rule('T1'), rule('T2'), rule('G17', keep=['string-literal:']), rule('G18', keep=['escaped-identifier:']), rule('G12', keep=['lookahead-spans-tokens']), rule('G14', keep=['digit-run-continuation']), rule('S1', keep=['VERSION', 'DIRECTIVE'])],
         'explanation': 'Necessary conditions for "accepted and classified under their production", anchored in the three stated '
                        'mechanisms. One parser per production, every production addressable: every parser is reachable from an '
                        'entry and every CST struct / enum variant (the repository\'s own copy of Annex A: 936 structs, 1048 '
@@ -185,7 +185,7 @@ PROPS = {
         'technique': 'named-parameter threading lint + must-adopt / control-dependence checks',
     },
     'C14': {
-        'rules': [rule('G10'), rule('W3'), rule('W1'), rule('G0'), rule('G14'), rule('G21'), rule('X20'), rule('G22'), rule('G17', keep=['string-literal:']), rule('W6')],
+        'rules': [rule('G10'), rule('W3'), rule('W1'), rule('G0'), rule('G14'), rule('G21'), rule('X20'), rule('G22'), rule('G17', keep=['string-literal:']), rule('W6'), rule('X1', keep=['unscanned-exit'])],
         'explanation': 'Strict entries cannot succeed before end of input; bracket helpers demand both delimiters; no closing delimiter or '
                        'block-closing keyword is optional anywhere in the grammar (G10, G0); failures are mapped to Error::Parse '
                        'through the origin map of the parsed text and to Error::Preprocess with the path being read (W3), '
